@@ -23,6 +23,11 @@ pub enum Op {
     /// add_rules(kb, extra_clauses[c]): the knowledge base grows between queries. Every query
     /// instance is dropped first (instances borrow the knowledge base).
     Assert { c: usize },
+    /// The knowledge base is replaced, in place (the same variable, the same address), by the
+    /// other of two programs: the scenario's clauses, or `Scenario::alt_clauses()` — the same
+    /// predicates with the same number of clauses each, the constants of the fact tables rotated.
+    /// Clauses added by Assert are gone. Every query instance is dropped first.
+    Reload,
     /// next_solution(handle)
     Next { h: usize },
     /// solve(handle)
@@ -90,6 +95,31 @@ impl Scenario {
     }
     pub fn query_text(&self) -> Vec<String> {
         self.queries.iter().map(|q| q.to_string()).collect()
+    }
+    /// The other program of `Op::Reload`: the fact tables' atoms and small integers rotated
+    /// (a -> b -> c -> a, 1 -> 2 -> 3 -> 1), everything else as it is.
+    pub fn alt_clauses(&self) -> Vec<Clause> {
+        fn rot(t: &Term) -> Term {
+            match t {
+                Term::Atom(a) if a == "a" => Term::atom("b"),
+                Term::Atom(a) if a == "b" => Term::atom("c"),
+                Term::Atom(a) if a == "c" => Term::atom("a"),
+                Term::Int(i) if (1..=3).contains(i) => Term::Int(i % 3 + 1),
+                Term::Cplx(n, args) => Term::Cplx(n.clone(), args.iter().map(rot).collect()),
+                other => other.clone(),
+            }
+        }
+        self.clauses
+            .iter()
+            .map(|c| {
+                let table = c.body.is_none() && c.functor.starts_with('f') && c.functor[1..].chars().all(|ch| ch.is_ascii_digit());
+                if table {
+                    Clause { functor: c.functor.clone(), args: c.args.iter().map(rot).collect(), body: None }
+                } else {
+                    c.clone()
+                }
+            })
+            .collect()
     }
     /// Size measure used by the minimiser.
     pub fn size(&self) -> usize {
